@@ -193,4 +193,74 @@ theorem source_kernels_match :
    CC.Src.src_jh_swap_table, CC.Src.src_jh_roundconstants, CC.Src.src_jh_H0_224, CC.Src.src_jh_H0_256,
    CC.Src.src_jh_H0_384, CC.Src.src_jh_H0_512, CC.Src.src_jh_define_hasher⟩
 
+/-- **Source tie, phase 3 (the glue of lib.rs).**  `tools/inventory_kernels_glue.py` regenerates, on every run, Lean
+    definitions from the Rust of `Default::default`, `Update::update` (`self.datalen += data.len()` — a checked `usize`
+    addition —, `input_block` with the closure `|b| state.input(b)`), `FixedOutputDirty::finalize_into_dirty`
+    (`len = datalen as u64 * 8` checked in debug, the branch on `buffer.position() == 0`: `len64_padding_be` resp.
+    `pad_with::<Iso7816>().unwrap()` + the extra length block `last[56..] = len.to_be_bytes()`, the output slice
+    `finalized[128 - $OutputBytes..]`) and `Reset::reset` (`*self = Self::default()`, unconditionally) for the four
+    `define_hasher!` instantiations; the model (`Hasher.new`, `Hasher.update`, `Hasher.finalizeDirty`, `Hasher.reset`)
+    equals them on the struct fields, for every state (with `datalen` a `usize`), every input, both profiles; the
+    `BlockBuffer` methods are the named primitives of `CC.Buffer`, `Compressor::{new, input, finalize}` parameters
+    instantiated with the model's functions.  `Clone` is derived (`jh_structs`).  Panic messages are not compared.
+    Individual facts: `CC.Src.src_jh_{default,update,finalize_into_dirty,reset}_*`, `CC.Src.src_jh_structs`. -/
+theorem source_glue_match :
+    CC.Gen.Kernels.jh_errors = [] ∧
+    CC.Src.jhEnc (Hasher.new 224) = CC.Gen.Kernels.jh_default_224 CC.Src.jhNew ∧
+    (∀ (M : Mach) (p : Profile) (h : Hasher) (data : List (BitVec 8)),
+      CC.Src.noMsg (CC.Gen.Kernels.jh_update_224 (Compressor.input M) p h.state h.buffer h.datalen data)
+        = CC.Src.noMsg (h.update M p data >>= fun h' => .ok (CC.Src.jhEnc h'))) ∧
+    (∀ (M : Mach) (p : Profile) (h : Hasher), h.n = 224 → h.datalen < 2 ^ 64 → ∀ (out : List (BitVec 8)),
+      CC.Src.noMsg (CC.Gen.Kernels.jh_finalize_into_dirty_224 (Compressor.input M) Compressor.finalize p h.state h.buffer
+          h.datalen out)
+        = CC.Src.noMsg (h.finalizeDirty M p >>= fun r => .ok (r.1.state, r.1.buffer, r.1.datalen, r.2))) ∧
+    (∀ (h : Hasher), h.n = 224 →
+      CC.Src.jhEnc h.reset = CC.Gen.Kernels.jh_reset_224 CC.Src.jhNew h.state h.buffer h.datalen) ∧
+    CC.Src.jhEnc (Hasher.new 256) = CC.Gen.Kernels.jh_default_256 CC.Src.jhNew ∧
+    (∀ (M : Mach) (p : Profile) (h : Hasher) (data : List (BitVec 8)),
+      CC.Src.noMsg (CC.Gen.Kernels.jh_update_256 (Compressor.input M) p h.state h.buffer h.datalen data)
+        = CC.Src.noMsg (h.update M p data >>= fun h' => .ok (CC.Src.jhEnc h'))) ∧
+    (∀ (M : Mach) (p : Profile) (h : Hasher), h.n = 256 → h.datalen < 2 ^ 64 → ∀ (out : List (BitVec 8)),
+      CC.Src.noMsg (CC.Gen.Kernels.jh_finalize_into_dirty_256 (Compressor.input M) Compressor.finalize p h.state h.buffer
+          h.datalen out)
+        = CC.Src.noMsg (h.finalizeDirty M p >>= fun r => .ok (r.1.state, r.1.buffer, r.1.datalen, r.2))) ∧
+    (∀ (h : Hasher), h.n = 256 →
+      CC.Src.jhEnc h.reset = CC.Gen.Kernels.jh_reset_256 CC.Src.jhNew h.state h.buffer h.datalen) ∧
+    CC.Src.jhEnc (Hasher.new 384) = CC.Gen.Kernels.jh_default_384 CC.Src.jhNew ∧
+    (∀ (M : Mach) (p : Profile) (h : Hasher) (data : List (BitVec 8)),
+      CC.Src.noMsg (CC.Gen.Kernels.jh_update_384 (Compressor.input M) p h.state h.buffer h.datalen data)
+        = CC.Src.noMsg (h.update M p data >>= fun h' => .ok (CC.Src.jhEnc h'))) ∧
+    (∀ (M : Mach) (p : Profile) (h : Hasher), h.n = 384 → h.datalen < 2 ^ 64 → ∀ (out : List (BitVec 8)),
+      CC.Src.noMsg (CC.Gen.Kernels.jh_finalize_into_dirty_384 (Compressor.input M) Compressor.finalize p h.state h.buffer
+          h.datalen out)
+        = CC.Src.noMsg (h.finalizeDirty M p >>= fun r => .ok (r.1.state, r.1.buffer, r.1.datalen, r.2))) ∧
+    (∀ (h : Hasher), h.n = 384 →
+      CC.Src.jhEnc h.reset = CC.Gen.Kernels.jh_reset_384 CC.Src.jhNew h.state h.buffer h.datalen) ∧
+    CC.Src.jhEnc (Hasher.new 512) = CC.Gen.Kernels.jh_default_512 CC.Src.jhNew ∧
+    (∀ (M : Mach) (p : Profile) (h : Hasher) (data : List (BitVec 8)),
+      CC.Src.noMsg (CC.Gen.Kernels.jh_update_512 (Compressor.input M) p h.state h.buffer h.datalen data)
+        = CC.Src.noMsg (h.update M p data >>= fun h' => .ok (CC.Src.jhEnc h'))) ∧
+    (∀ (M : Mach) (p : Profile) (h : Hasher), h.n = 512 → h.datalen < 2 ^ 64 → ∀ (out : List (BitVec 8)),
+      CC.Src.noMsg (CC.Gen.Kernels.jh_finalize_into_dirty_512 (Compressor.input M) Compressor.finalize p h.state h.buffer
+          h.datalen out)
+        = CC.Src.noMsg (h.finalizeDirty M p >>= fun r => .ok (r.1.state, r.1.buffer, r.1.datalen, r.2))) ∧
+    (∀ (h : Hasher), h.n = 512 →
+      CC.Src.jhEnc h.reset = CC.Gen.Kernels.jh_reset_512 CC.Src.jhNew h.state h.buffer h.datalen) ∧
+    CC.Gen.Kernels.jh_structs =
+      [("Jh224", "struct", ["state", "buffer", "datalen"], ["Clone"], ["Default"]),
+       ("Jh256", "struct", ["state", "buffer", "datalen"], ["Clone"], ["Default"]),
+       ("Jh384", "struct", ["state", "buffer", "datalen"], ["Clone"], ["Default"]),
+       ("Jh512", "struct", ["state", "buffer", "datalen"], ["Clone"], ["Default"]),
+       ("Compressor", "struct", ["cv"], ["Clone", "Copy"], [])] :=
+  ⟨CC.Src.src_jh_clean,
+   CC.Src.src_jh_default_224, CC.Src.src_jh_update_224,
+   fun M p h hn hd out => CC.Src.src_jh_finalize_into_dirty_224 M p h hn hd out, CC.Src.src_jh_reset_224,
+   CC.Src.src_jh_default_256, CC.Src.src_jh_update_256,
+   fun M p h hn hd out => CC.Src.src_jh_finalize_into_dirty_256 M p h hn hd out, CC.Src.src_jh_reset_256,
+   CC.Src.src_jh_default_384, CC.Src.src_jh_update_384,
+   fun M p h hn hd out => CC.Src.src_jh_finalize_into_dirty_384 M p h hn hd out, CC.Src.src_jh_reset_384,
+   CC.Src.src_jh_default_512, CC.Src.src_jh_update_512,
+   fun M p h hn hd out => CC.Src.src_jh_finalize_into_dirty_512 M p h hn hd out, CC.Src.src_jh_reset_512,
+   CC.Src.src_jh_structs⟩
+
 end CC.Thm.C06
